@@ -108,8 +108,16 @@ impl Interval {
     }
 
     /// Returns the quadrant for trigonometric functions
+    ///
+    /// The quadrant is computed in `f64`: in `f32`, `angle * 2.0 / PI` is off
+    /// by a noticeable fraction of a quadrant for angles beyond a few
+    /// thousand, which misplaces a bound relative to the extrema of the
+    /// function and produces intervals that do not enclose.
     fn quadrant(angle: f32) -> Quadrant {
-        match (angle * 2.0 / PI).floor().rem_euclid(4.0) as u8 {
+        match (f64::from(angle) * 2.0 / std::f64::consts::PI)
+            .floor()
+            .rem_euclid(4.0) as u8
+        {
             0 => Quadrant::Q0,
             1 => Quadrant::Q1,
             2 => Quadrant::Q2,
